@@ -568,8 +568,11 @@ func Main(types []TypeInfo) {
 	dense := flag.Bool("dense", false, "dense mutation families")
 	filter := flag.String("filter", "", "only types whose key contains this substring (comma separated alternatives)")
 	sets := flag.String("sets", "", "only these option sets (comma separated)")
+	G := flag.Int("g", 8, "goroutines (readers family)")
+	iters := flag.Int("iters", 200, "iterations per goroutine (readers family)")
+	procs := flag.Int("procs", 1, "GOMAXPROCS")
 	flag.Parse()
-	runtime.GOMAXPROCS(1)
+	runtime.GOMAXPROCS(*procs)
 	var sel []TypeInfo
 	for _, ti := range types {
 		ok := *filter == ""
@@ -613,6 +616,8 @@ func Main(types []TypeInfo) {
 			d.FamHist(*nrand)
 		case "alias":
 			d.FamAlias(*nrand)
+		case "readers":
+			d.FamReaders(*nrand, *G, *iters)
 		case "":
 		default:
 			fmt.Fprintln(os.Stderr, "unknown family", f)
